@@ -31,5 +31,6 @@ run 661ff52 C14
 run 6980192 C14
 run ec81f66 C17
 run 36b0a82 C14
+run 95e9712 C04
 for c in $(ls /verif/mutants/revert_*.diff | sed 's/.*revert_\(.*\)\.diff/\1/'); do grep -q "| $c |" $OUT || run $c C18; done
 cat $OUT
